@@ -2,6 +2,8 @@ package sym
 
 import (
 	"fmt"
+	"os"
+	"strings"
 	"go/types"
 	"runtime/debug"
 	"sort"
@@ -28,6 +30,7 @@ type Config struct {
 	Workers     int
 	ValidateMax int // number of completed paths for which a model is extracted
 	Deadline    time.Time
+	DumpFile    string
 }
 
 // PathModel is a completed path with a concrete witness, used for native trace validation.
@@ -61,6 +64,7 @@ type HarnessReport struct {
 	SampleSMT    string
 	Wall         time.Duration
 	Truncated    bool
+	Forks        map[string]int
 }
 
 func runPath(cfg *Config, sol *Solver, prefix []int, wantModel bool) (res *PathResult, newWork [][]int, steps int, unknownFz int, funcs map[*ssa.Function]bool) {
@@ -93,7 +97,11 @@ func runPath(cfg *Config, sol *Solver, prefix []int, wantModel bool) (res *PathR
 				res.Inconclusive = append(res.Inconclusive, e.Msg)
 			default:
 				res.End = "engine-error"
-				res.Inconclusive = append(res.Inconclusive, fmt.Sprintf("engine error: %v at %s\n%s", r, in.posString(), debug.Stack()))
+				st := strings.Split(string(debug.Stack()), "\n")
+				if len(st) > 24 {
+					st = st[:24]
+				}
+				res.Inconclusive = append(res.Inconclusive, fmt.Sprintf("engine error: %v at %s\n%s", r, in.posString(), strings.Join(st, "\n")))
 			}
 		}
 		if len(sol.Errors) > 0 {
@@ -146,7 +154,14 @@ func Explore(cfg *Config) *HarnessReport {
 				mu.Unlock()
 				return
 			}
+			sol.SoftMs = 2500
 			defer sol.Close()
+			if cfg.DumpFile != "" {
+				if f, err := os.Create(cfg.DumpFile); err == nil {
+					sol.Log = f
+					defer f.Close()
+				}
+			}
 			for {
 				mu.Lock()
 				for len(work) == 0 && busy > 0 {
@@ -246,6 +261,7 @@ func Explore(cfg *Config) *HarnessReport {
 			rep.NotReached = append(rep.NotReached, id)
 		}
 	}
+	rep.Forks = cfg.Shared.Forks
 	for a := range cfg.Shared.Assumptions {
 		rep.Assumptions = append(rep.Assumptions, a)
 	}
